@@ -845,8 +845,76 @@ def run_fixed(ctx, use_model):
             fid = attribute(n2, nm, exp, stm)
             ctx.property_failure({"corpus": cf.name, "sealed_text": c["sealed_text"], "mutated_text": c["mutated_text"], "status": stm,
                                   "expected": exp, "class": klass}, f"corpus {cf.name}: edit ({klass}) reports {stm}, expected {exp}", finding=fid)
+    leaf_kind_grid(ctx)
     model_check(out, use_model)
     merge(ctx, [out])
+
+
+def leaf_kind_grid(ctx):
+    """Deterministic grid, run on every tier: a single leaf whose KIND changes while its spelling stays the same
+    (404 <-> "404", true <-> "true", null <-> "null", 2.5 <-> "2.5") must invalidate the seal, at every position
+    (body assignment, nested block child, META field, list item, inline-map value inside a list) and under plain and
+    always-quoted keys (PATTERN, REGEX).  Checked in memory (seal d1, swap the leaf, verify) and after text."""
+    from octave_mcp.core.ast_nodes import Assignment, Block, Document, InlineMap, ListValue
+    from octave_mcp.core.emitter import emit
+    from octave_mcp.core.parser import parse
+    from octave_mcp.core.sealer import seal_document, verify_seal
+    pairs = [(404, "404"), ("404", 404), (True, "true"), ("true", True), (False, "false"), (None, "null"), ("null", None),
+             (2.5, "2.5"), ("2.5", 2.5), (1, 1.0), (1.0, 1), (0, False), (True, 1), ("x", ["x"])]
+
+    def build(pos, key, v):
+        if pos == "assign":
+            return Document(name="D", sections=[Assignment(key="A", value=1), Assignment(key=key, value=v)])
+        if pos == "nested":
+            return Document(name="D", sections=[Block(key="B", children=[Block(key="C", children=[Assignment(key=key, value=v)])])])
+        if pos == "meta":
+            return Document(name="D", meta={"TYPE": "T", key: v}, sections=[Assignment(key="A", value=1)])
+        if pos == "list":
+            return Document(name="D", sections=[Assignment(key=key, value=ListValue(items=["a", v, 2]))])
+        if pos == "map":
+            return Document(name="D", sections=[Assignment(key="L", value=ListValue(items=[InlineMap(pairs={key: v}), "z"]))])
+        if pos == "map-multiline":
+            return Document(name="D", sections=[Assignment(key="L", value=ListValue(items=[InlineMap(pairs={key: v}),
+                                                                                      InlineMap(pairs={"Q": "a b"}), "z", "y"]))])
+        raise ValueError(pos)
+
+    def status(doc):
+        r = verify_seal(doc)
+        return getattr(getattr(r, "status", r), "name", str(getattr(r, "status", r)))
+
+    for pos in ("assign", "nested", "meta", "list", "map", "map-multiline"):
+        for key in ("K", "PATTERN", "REGEX"):
+            for v1, v2 in pairs:
+                if isinstance(v2, list):
+                    v2 = ListValue(items=list(v2))
+                    if pos in ("map", "map-multiline"):
+                        continue
+                ctx.count()
+                ctx.nontrivial(("leafkind", pos, key, repr(v1), repr(v2)))
+                case = {"stream": "leaf-kind-grid", "position": pos, "key": key, "sealed_value": repr(v1), "edited_value": repr(v2)}
+                try:
+                    d1 = seal_document(build(pos, key, v1))
+                    if status(d1) != "VERIFIED":
+                        ctx.property_failure(dict(case, status=status(d1)), "leaf-kind grid: a freshly sealed document does not verify")
+                        continue
+                    d2 = build(pos, key, v2)
+                    d2.sections = list(d2.sections) + [d1.sections[-1]]          # the SEAL section of the sealed document
+                    if d1.meta is not None and d2.meta is not None:
+                        for mk, mv in d1.meta.items():                            # anything seal_document added to META
+                            d2.meta.setdefault(mk, mv)
+                    st_mem = status(d2)
+                    t1, t2 = emit(d1), emit(d2)
+                    st_txt = status(parse(t2))
+                except Exception as e:  # noqa
+                    ctx.property_failure(dict(case, error=f"{type(e).__name__}: {e}"[:200]), "leaf-kind grid: seal / verify raised")
+                    continue
+                ctx.hist("leaf_kind_grid", f"{pos}:{st_mem}/{st_txt}")
+                if st_mem != "INVALID":
+                    ctx.property_failure(dict(case, status_in_memory=st_mem, sealed_text=t1, edited_text=t2),
+                                         f"leaf-kind grid: the kind of one leaf changed ({v1!r} -> {v2!r}) and the seal still reports {st_mem} in memory")
+                elif t1 != t2 and st_txt != "INVALID":
+                    ctx.property_failure(dict(case, status_after_text=st_txt, sealed_text=t1, edited_text=t2),
+                                         f"leaf-kind grid: edited text differs from the sealed text and the seal reports {st_txt}")
 
 
 # ------------------------------------------------------------------------------------------------------------
